@@ -390,10 +390,9 @@ Qed.
 Lemma field_lookup_sound e os st p prefix f :
   Good e os st ->
   Good e os (fst (field_lookup st p prefix f)) /\
-  (safe_field prefix f = true ->
-   adm e (src_of f (snd (field_lookup st p prefix f))) (ref_field e p prefix [] f)).
+  adm e (src_of f (snd (field_lookup st p prefix f))) (ref_field e p prefix [] f).
 Proof.
-  intros G. unfold field_lookup, ref_field, explicit_names, safe_field. cbn [mem_str].
+  intros G. unfold field_lookup, ref_field, explicit_names. cbn [mem_str].
   assert (Hg : Good e os (fst (get_env p st (prefix ++ f_name f))) /\
                (adm e (src_of f (snd (get_env p st (prefix ++ f_name f))))
                   (match ref_candidates e p (prefix ++ f_name f) with
@@ -401,58 +400,43 @@ Proof.
   { destruct (get_env_sound p e os st (prefix ++ f_name f) G) as [G' L]. split; [exact G'|].
     apply (adm_cands e f) in L. destruct (ref_candidates e p (prefix ++ f_name f)); exact L. }
   destruct (f_explicit f) as [|v|vs].
-  - destruct Hg as [G' A]. split; [exact G' | intros _; exact A].
-  - destruct (is_nil v) eqn:N.
-    + destruct Hg as [G' A]. split; [exact G' | intros _; exact A].
-    + cbn [fst snd map]. split; [exact G|]. intros _.
-      apply adm_first, (lookup_exact_str_sound e os st _ G).
-  - destruct (is_nil vs) eqn:N.
-    + destruct Hg as [G' A]. split; [exact G' | intros _; exact A].
-    + destruct (is_nil prefix) eqn:NP; cbn [fst snd]; (split; [exact G|]).
-      * intros _. destruct prefix; [|discriminate]. rewrite map_app_nil.
-        apply adm_first, (lookup_exact_seq_sound e os st _ G).
-      * destruct vs; [discriminate|]. cbn [negb andb]. discriminate.
+  - exact Hg.
+  - destruct (is_nil v) eqn:N; [exact Hg|].
+    cbn [fst snd map]. split; [exact G|].
+    apply adm_first, (lookup_exact_str_sound e os st _ G).
+  - destruct (is_nil vs) eqn:N; [exact Hg|].
+    destruct (is_nil prefix) eqn:NP; cbn [fst snd]; (split; [exact G|]).
+    + destruct prefix; [|discriminate]. rewrite map_app_nil.
+      apply adm_first, (lookup_exact_seq_sound e os st _ G).
+    + apply adm_first, (lookup_exact_seq_sound e os st _ G).
 Qed.
-
-Definition rf_ok (e : env) (p : prio) (prefix : pstr) (kw : list pstr) (f : field) (s : src) : Prop :=
-  safe_field prefix f = true -> adm e s (ref_field e p prefix kw f).
 
 Lemma resolve_field_sound e os st p prefix kw f :
   Good e os st ->
   Good e os (fst (resolve_field st p prefix kw f)) /\
-  rf_ok e p prefix kw f (snd (resolve_field st p prefix kw f)).
+  adm e (snd (resolve_field st p prefix kw f)) (ref_field e p prefix kw f).
 Proof.
-  intros G. unfold resolve_field, rf_ok.
+  intros G. unfold resolve_field.
   destruct (mem_str (f_name f) kw) eqn:M; cbn [fst snd].
-  - split; [exact G|]. intros _. unfold ref_field. rewrite M. cbn [adm In]. auto.
+  - split; [exact G|]. unfold ref_field. rewrite M. cbn [adm In]. auto.
   - destruct (field_lookup_sound e os st p prefix f G) as [G' A].
     destruct (field_lookup st p prefix f) as [st' r]. cbn [fst snd] in *.
-    split; [exact G'|]. intros Sf. specialize (A Sf).
+    split; [exact G'|].
     unfold ref_field in *. rewrite M. cbn [mem_str] in A. exact A.
 Qed.
 
 Lemma resolve_fields_sound e os p prefix kw fs : forall st,
   Good e os st ->
   Good e os (fst (resolve_fields st p prefix kw fs)) /\
-  Forall2 (rf_ok e p prefix kw) fs (snd (resolve_fields st p prefix kw fs)).
+  Forall2 (adm e) (snd (resolve_fields st p prefix kw fs)) (map (ref_field e p prefix kw) fs).
 Proof.
-  induction fs as [|f r IH]; intros st G; cbn [resolve_fields fst snd].
+  induction fs as [|f r IH]; intros st G; cbn [resolve_fields fst snd map].
   - split; [exact G | constructor].
   - destruct (resolve_field_sound e os st p prefix kw f G) as [G1 A1].
     destruct (resolve_field st p prefix kw f) as [st1 s]. cbn [fst snd] in *.
     destruct (IH st1 G1) as [G2 A2].
     destruct (resolve_fields st1 p prefix kw r) as [st2 ss]. cbn [fst snd] in *.
     split; [exact G2 | constructor; assumption].
-Qed.
-
-Lemma rf_ok_safe e p prefix kw fs ss :
-  forallb (safe_field prefix) fs = true ->
-  Forall2 (rf_ok e p prefix kw) fs ss ->
-  Forall2 (adm e) ss (map (ref_field e p prefix kw) fs).
-Proof.
-  intros S H. induction H as [|f s fs ss H1 H IH]; cbn [map]; [constructor|].
-  cbn [forallb] in S. apply Bool.andb_true_iff in S. destruct S as [S1 S2].
-  constructor; [apply H1, S1 | apply IH, S2].
 Qed.
 
 (* ---- deterministic region: equality with the specification function -------------------------- *)
@@ -537,8 +521,7 @@ Lemma instantiate_sound st c a :
     Good e (os_env st) (fst (instantiate st c a)) /\
     (a_reload a = true -> e = overlay (os_env st) (eff_secrets c a) (eff_dotenv c a)) /\
     environ (prepare st c a) = Some e /\
-    (safe_cls c a = true ->
-     adm_outcome e c a (snd (instantiate st c a)) /\
+    (adm_outcome e c a (snd (instantiate st c a)) /\
      (deterministic e (c_prio c) (eff_prefix c a) (a_kwargs a) (c_fields c) = true ->
       snd (instantiate st c a) =
         outcome_of (c_fields c) (ref_resolve e (c_prio c) (eff_prefix c a) (a_kwargs a) (c_fields c))) /\
@@ -555,7 +538,6 @@ Proof.
   destruct (resolve_fields (prepare st c a) (c_prio c) (eff_prefix c a) (a_kwargs a) (c_fields c))
     as [st1 ss]. cbn [fst snd] in *.
   split; [exact G1|]. split; [exact R|]. split; [apply G0|].
-  intros Sf. apply rf_ok_safe in F; [|exact Sf].
   pose proof (adm_no_crash _ _ _ F) as NC.
   pose proof (missing_names_ref _ _ _ _ _ _ F) as MN.
   assert (OC : outcome_of (c_fields c) ss <> OCrash).
@@ -761,16 +743,15 @@ Qed.
 
 (* ---- statements used by props/C18.v ------------------------------------------------------------------------ *)
 Lemma pure_refinement st e p prefix kw fs :
-  EnvInv st -> environ st = Some e -> forallb (safe_field prefix) fs = true ->
+  EnvInv st -> environ st = Some e ->
   Forall2 (adm e) (snd (resolve_fields st p prefix kw fs)) (map (ref_field e p prefix kw) fs) /\
   (deterministic e p prefix kw fs = true ->
    snd (resolve_fields st p prefix kw fs) = ref_resolve e p prefix kw fs) /\
   EnvInv (fst (resolve_fields st p prefix kw fs)) /\
   environ (fst (resolve_fields st p prefix kw fs)) = Some e.
 Proof.
-  intros I E Sf.
+  intros I E.
   destruct (resolve_fields_sound e (os_env st) p prefix kw fs st (conj I (conj E eq_refl))) as [(I' & E' & _) F].
-  apply rf_ok_safe in F; [|exact Sf].
   split; [exact F|]. split; [|split; assumption].
   intros D. apply adm_deterministic; assumption.
 Qed.
@@ -785,7 +766,7 @@ Proof.
 Qed.
 
 Lemma reload_any_history os0 h c a :
-  a_reload a = true -> safe_cls c a = true ->
+  a_reload a = true ->
   let st := run (init_state os0) h in
   let e := overlay (user_edits os0 h) (eff_secrets c a) (eff_dotenv c a) in
   adm_outcome e c a (snd (instantiate st c a)) /\
@@ -794,27 +775,27 @@ Lemma reload_any_history os0 h c a :
      outcome_of (c_fields c) (ref_resolve e (c_prio c) (eff_prefix c a) (a_kwargs a) (c_fields c))) /\
   os_env (fst (instantiate st c a)) = user_edits os0 h.
 Proof.
-  intros R Sf st e.
+  intros R st e.
   assert (I : EnvInv st) by (apply run_inv, inv_init).
   destruct (instantiate_sound st c a I) as (e' & (_ & _ & O) & Ov & _ & K).
-  specialize (Ov R). specialize (K Sf).
+  specialize (Ov R).
   assert (Eo : os_env st = user_edits os0 h) by (unfold st; rewrite run_os; reflexivity).
   rewrite Eo in Ov. subst e'. destruct K as (K1 & K2 & _). split; [exact K1|]. split; [exact K2|].
   rewrite O. exact Eo.
 Qed.
 
 Lemma missing_all os0 h c a :
-  a_reload a = true -> safe_cls c a = true ->
+  a_reload a = true ->
   let st := run (init_state os0) h in
   let e := overlay (user_edits os0 h) (eff_secrets c a) (eff_dotenv c a) in
   let m := ref_missing e (c_prio c) (eff_prefix c a) (a_kwargs a) (c_fields c) in
   (forall l, snd (instantiate st c a) = OMissing l -> l = m) /\
   (m <> [] -> snd (instantiate st c a) = OMissing m).
 Proof.
-  intros R Sf st e m.
+  intros R st e m.
   assert (I : EnvInv st) by (apply run_inv, inv_init).
   destruct (instantiate_sound st c a I) as (e' & _ & Ov & _ & K).
-  specialize (Ov R). specialize (K Sf).
+  specialize (Ov R).
   assert (Eo : os_env st = user_edits os0 h) by (unfold st; rewrite run_os; reflexivity).
   rewrite Eo in Ov. subst e'. destruct K as (_ & _ & K3 & K4). split; assumption.
 Qed.
@@ -823,25 +804,3 @@ Lemma environ_untouched :
   (forall st o, is_library_op o = true -> os_env (fst (step st o)) = os_env st) /\
   (forall st h, os_env (run st h) = user_edits (os_env st) h).
 Proof. split; [exact library_op_os | intros st h; apply run_os]. Qed.
-
-(* F37: prefix + tuple of candidate names - the model (like the code) looks up prefix ++ repr(tuple) *)
-Definition f37_os : env := [(S "P_A", S "1")].
-Definition f37_cls : cls :=
-  mkCls [mkField (S "x") (ExTuple [S "Q"; S "A"]) true] PScreaming (S "P_") [] [].
-Definition f37_args : args := mkArgs [] true EFDefault None None.
-
-Lemma refuted_prefix_tuple :
-  a_reload f37_args = true /\ safe_cls f37_cls f37_args = false /\
-  snd (instantiate (init_state f37_os) f37_cls f37_args) = OInstance [SDefault] /\
-  ref_resolve (overlay f37_os [] []) PScreaming (S "P_") [] (c_fields f37_cls) = [SEnv (S "P_A") (S "1")] /\
-  ~ adm_outcome (overlay f37_os (eff_secrets f37_cls f37_args) (eff_dotenv f37_cls f37_args))
-      f37_cls f37_args (snd (instantiate (init_state f37_os) f37_cls f37_args)).
-Proof.
-  split; [reflexivity|]. split; [reflexivity|]. split; [vm_compute; reflexivity|].
-  split; [vm_compute; reflexivity|].
-  intros (ss & F & E & _).
-  cbn [c_fields f37_cls map] in F.
-  inversion F as [|s y ss' l' H1 H2]; subst. inversion H2; subst. clear F H2.
-  destruct s; vm_compute in E; try discriminate E.
-  vm_compute in H1. destruct H1 as [H|[]]. discriminate H.
-Qed.
